@@ -7,7 +7,7 @@ use layout21raw as raw;
 use serde_json::{json, Value};
 
 pub fn commands() -> Vec<(&'static str, CmdFn)> {
-    vec![("gds_to_raw", gds_to_raw)]
+    vec![("gds_to_raw", gds_to_raw), ("raw_gds_rt", raw_gds_rt)]
 }
 
 fn ipt(v: &Value) -> GdsPoint { GdsPoint::new(v[0].as_i64().unwrap() as i32, v[1].as_i64().unwrap() as i32) }
@@ -87,4 +87,57 @@ fn gds_to_raw(case: &Value) -> Value {
             Err(e) => json!({"id": id(case), "outcome":"ok", "cells": [], "glue": e}),
         },
     }
+}
+
+fn gds_elem_abs(e: &GdsElement) -> Value {
+    let blank = json!({"k":"", "layer":0, "dt":0, "pts":[], "width":0, "name":"", "at":[0,0], "refl":false, "angle":0, "str":""});
+    let mut o = blank;
+    let p = |v: &Vec<GdsPoint>| json!(v.iter().map(|q| vec![q.x, q.y]).collect::<Vec<_>>());
+    match e {
+        GdsElement::GdsBoundary(b) => { o["k"] = json!("boundary"); o["layer"] = json!(b.layer); o["dt"] = json!(b.datatype); o["pts"] = p(&b.xy); }
+        GdsElement::GdsPath(b) => { o["k"] = json!("path"); o["layer"] = json!(b.layer); o["dt"] = json!(b.datatype); o["pts"] = p(&b.xy); o["width"] = json!(b.width.unwrap_or(-1)); }
+        GdsElement::GdsStructRef(b) => { o["k"] = json!("sref"); o["name"] = json!(b.name); o["at"] = json!([b.xy.x, b.xy.y]);
+            if let Some(s) = &b.strans { o["refl"] = json!(s.reflected); o["angle"] = json!(s.angle.map(|a| a.round() as i64).unwrap_or(0));
+                if s.mag.is_some() || s.abs_mag || s.abs_angle || s.angle.map(|a| a.fract() != 0.0).unwrap_or(false) { o["k"] = json!("sref-with-extras"); } } }
+        GdsElement::GdsTextElem(b) => { o["k"] = json!("text"); o["layer"] = json!(b.layer); o["dt"] = json!(b.texttype); o["at"] = json!([b.xy.x, b.xy.y]); o["str"] = json!(b.string); }
+        GdsElement::GdsArrayRef(_) => { o["k"] = json!("aref"); }
+        GdsElement::GdsNode(_) => { o["k"] = json!("node"); }
+        GdsElement::GdsBox(_) => { o["k"] = json!("box"); }
+    }
+    o
+}
+
+/// C07: abstract raw library -> to_gds (recorded per cell for the I->S validation) -> from_gds -> projections
+fn raw_gds_rt(case: &Value) -> Value {
+    let lib = raw_lib_of(&case["lib"]);
+    let before = match raw_cells_json(&lib) { Ok(v) => v, Err(e) => return json!({"id": id(case), "outcome":"glue", "msg": e}) };
+    let g = match guarded(|| lib.to_gds()) {
+        Err(p) => return json!({"id": id(case), "outcome":"export-panic", "msg": p}),
+        Ok(Err(e)) => return json!({"id": id(case), "outcome":"export-err", "msg": err_str(e)}),
+        Ok(Ok(g)) => g,
+    };
+    // the exported structure of every cell, with the raw cell in numeric form
+    let layers = lib.layers.read().unwrap();
+    let mut exported = Vec::new();
+    for c in lib.cells.iter() {
+        let c = c.read().unwrap();
+        let Some(l) = &c.layout else { continue };
+        let st = g.structs.iter().find(|s| s.name == c.name);
+        let rawcell = json!({"name": c.name,
+            "insts": l.insts.iter().map(|i| json!({"cell": i.cell.read().unwrap().name, "loc": [i.loc.x, i.loc.y], "refl": i.reflect_vert,
+                                                   "angle": i.angle.map(|a| a.round() as i64).unwrap_or(0)})).collect::<Vec<_>>(),
+            "elems": l.elems.iter().map(|e| { let lay = layers.get(e.layer).unwrap(); let mut v = shape_json(&e.inner);
+                v["layer"] = json!(lay.layernum); v["purpose"] = json!(lay.num(&e.purpose)); v["label"] = json!(lay.num(&raw::LayerPurpose::Label));
+                v["net"] = json!(e.net.clone().unwrap_or_default()); v }).collect::<Vec<_>>()});
+        exported.push(json!({"cell": rawcell, "gds": st.map(|s| s.elems.iter().map(gds_elem_abs).collect::<Vec<_>>()), "struct_found": st.is_some()}));
+    }
+    drop(layers);
+    let units_gds = [g.units.0.to_bits(), g.units.1.to_bits()];
+    let back = match guarded(|| raw::Library::from_gds(&g, None)) {
+        Err(p) => json!({"outcome":"import-panic","msg":p}),
+        Ok(Err(e)) => json!({"outcome":"import-err","msg":err_str(e)}),
+        Ok(Ok(l2)) => json!({"outcome":"ok","units": format!("{:?}", l2.units), "name": l2.name, "cells": raw_cells_json(&l2).unwrap_or(json!([]))}),
+    };
+    json!({"id": id(case), "outcome":"ok", "units": format!("{:?}", lib.units), "name": lib.name, "before": before, "exported": exported,
+           "units_gds": units_gds, "back": back})
 }
